@@ -561,6 +561,16 @@ def scale_free_guards(repo, rep, rule, T, names, type_them=False):
 def _values_stores(tree):
     """Statements that store THROUGH the .values / .data of an object:  x.values[m] = v,  x.data[i] += v."""
     out = []
+
+    def is_vals(b):
+        return isinstance(b, ast.Attribute) and b.attr in ("values", "data") and not (isinstance(b.value, ast.Name) and b.value.id in ("np", "numpy"))
+    # local names that ARE the .values / .data object (bound once, to exactly that attribute): a store through the name is a store through it
+    alias = {}
+    for n in ast.walk(tree):
+        if isinstance(n, ast.Assign) and len(n.targets) == 1 and isinstance(n.targets[0], ast.Name):
+            nm = n.targets[0].id
+            alias.setdefault(nm, []).append(n.value)
+    alias = {k for k, v in alias.items() if len(v) == 1 and is_vals(v[0])}
     for n in ast.walk(tree):
         tgts = []
         if isinstance(n, ast.Assign):
@@ -572,15 +582,17 @@ def _values_stores(tree):
                 b = t.value
                 while isinstance(b, ast.Subscript):
                     b = b.value
-                if isinstance(b, ast.Attribute) and b.attr in ("values", "data") and not (isinstance(b.value, ast.Name) and b.value.id in ("np", "numpy")):
+                if is_vals(b) or isinstance(b, ast.Name) and b.id in alias:
                     out.append(n)
+            elif isinstance(n, ast.AugAssign) and isinstance(t, ast.Name) and t.id in alias:
+                out.append(n)
     return out
 
 
 def lazy_safe_writes(repo, rep, rule):
     """A store through `x.values[...]` / `x.data[...]` changes x only when x is held in memory: for a dask-backed array `.values` computes a
     temporary, the store goes into the temporary and is lost - the lazy result silently differs from the in-memory one."""
-    if len(_values_stores(ast.parse("s.values[~(s.values >= 1)] = 1.0\nq.data[0] += 2\nnp.data[0] = 1"))) != 2:
+    if len(_values_stores(ast.parse("s.values[~(s.values >= 1)] = 1.0\nq.data[0] += 2\nnp.data[0] = 1\nv = d[k].values\nv[:] = f(v)\nw = 2 * d.values\nw[0] = 1"))) != 3:
         raise AnalysisError(f"{rule} self-test: stores through .values / .data not recognised")
     n = 0
     for fi in repo.all_funcs():
